@@ -77,3 +77,37 @@ Qed.
 
 Example ex_ops : forallb (fun o => is_path_op (fst o)) [(opL, [0%Z; 0%Z]); (opt, [0%Z; 0%Z]); (opy, [0%Z; 0%Z])] = true.
 Proof. reflexivity. Qed.
+
+(* ---- tie to the source: the Renderer's viewBox-to-pixel helpers of render/render.go, translated from /repo's
+   working tree by harness/gosrc.go on every run (gen/GoSrc.v; the receiver's fields are parameters), are the
+   float32 instance of the map the theorems above are about. ---- *)
+From IVG Require Import GoSem GoSrc GenEqRender.
+
+Theorem code_absX : forall (s : rstate f32) x, go_render_Renderer_absX (r_bx s) (r_scx s) x = absX N32 s x.
+Proof. exact GenEqRender.go_absX_eq. Qed.
+Print Assumptions code_absX.
+
+Theorem code_absY : forall (s : rstate f32) y, go_render_Renderer_absY (r_by s) (r_scy s) y = absY N32 s y.
+Proof. exact GenEqRender.go_absY_eq. Qed.
+Print Assumptions code_absY.
+
+Theorem code_relX : forall (s : rstate f32) x, go_render_Renderer_relX (r_scx s) x = relX N32 s x.
+Proof. exact GenEqRender.go_relX_eq. Qed.
+Print Assumptions code_relX.
+
+Theorem code_relY : forall (s : rstate f32) y, go_render_Renderer_relY (r_scy s) y = relY N32 s y.
+Proof. exact GenEqRender.go_relY_eq. Qed.
+Print Assumptions code_relY.
+
+Theorem code_unabsX : forall (s : rstate f32) x, go_render_Renderer_unabsX (r_bx s) (r_scx s) x = unabsX N32 s x.
+Proof. exact GenEqRender.go_unabsX_eq. Qed.
+Print Assumptions code_unabsX.
+
+Theorem code_unabsY : forall (s : rstate f32) y, go_render_Renderer_unabsY (r_by s) (r_scy s) y = unabsY N32 s y.
+Proof. exact GenEqRender.go_unabsY_eq. Qed.
+Print Assumptions code_unabsY.
+
+Theorem code_absVec2 : forall (s : rstate f32) x y,
+  go_render_Renderer_absVec2 (r_bx s) (r_by s) (r_scx s) (r_scy s) x y = (absX N32 s x, absY N32 s y).
+Proof. exact GenEqRender.go_absVec2_eq. Qed.
+Print Assumptions code_absVec2.
